@@ -5,7 +5,7 @@ class C31(Prop):
     pid = "C31"
     check_mod = "C31"
     drivers = [dict(pkg="internal/api", test="TestVerifC31")]
-    n_quick = 300
+    n_quick = 600
     n_thorough = 30000
     shard = 150
     ready = True
